@@ -60,9 +60,31 @@ def _install_function_coverage(outdir):
     sys.setprofile(prof)
 
 
+def _install_line_coverage(outdir):
+    """development aid (VERIF_LINECOV=<dir>): which forsys LINES do the checks execute? sys.monitoring LINE events, each location
+    reported once per process (forked workers inherit what the parent already saw); tools/linecov.py summarises."""
+    import sys
+    os.makedirs(outdir, exist_ok=True)
+    mon = sys.monitoring
+    tool = mon.COVERAGE_ID
+    mon.use_tool_id(tool, "verif-linecov")
+    root = os.path.join(os.environ.get("FORSYS_REPO", "/repo"), "forsys") + os.sep
+
+    def on_line(code, line):
+        fn = code.co_filename
+        if fn.startswith(root):
+            with open(os.path.join(outdir, "%d.txt" % os.getpid()), "a") as fh:
+                fh.write("%s:%d\n" % (fn[len(root):], line))
+        return mon.DISABLE
+    mon.register_callback(tool, mon.events.LINE, on_line)
+    mon.set_events(tool, mon.events.LINE)
+
+
 def main(argv):
     if os.environ.get("VERIF_FUNCCOV"):
         _install_function_coverage(os.environ["VERIF_FUNCCOV"])
+    if os.environ.get("VERIF_LINECOV"):
+        _install_line_coverage(os.environ["VERIF_LINECOV"])
     if len(argv) < 2:
         print("usage: check <ID> quick|thorough | <ID> --replay <file>")
         return 2
